@@ -152,15 +152,33 @@ package sam
 // reading returns io.EOF, or - if fault - a non-EOF error err (once or forever).
 
 //@ func ReaderHeader
-//@   props C06 C07 C11 C18
+//@   props C03 C06 C07 C11 C18
+//@   sequential
 //@   yields Y
 //@   witness br
 //@   ensures !stopped && br.fault ==> len(Y) > 0 && Y[len(Y)-1].1 == br.err
 //@   ensures forall t int :: 0 <= t && t < len(Y) ==> Y[t].1 != 1
 //@   ensures forall t int :: 0 <= t && t < len(Y) && ioErr(Y[t].1) ==> t == len(Y)-1
+// line by line (C03): the items are, in order, one per non-blank line of the stream (lines as ScanLines would cut
+// them: lnN/lnS/lnE; blank lines skipped); a line starting with '@' is yielded verbatim as a header
+//@   ensures br.id == r.id
+//@   let IN := br.in
+//@   let E := br.end
+//@   ensures @C03 !stopped && !br.fault ==> br.pos == E
+//@   ensures @C03 !stopped && !br.fault ==> len(Y) == nbl(IN, E, lnN(IN, E))
+//@   ensures @C03 !br.fault ==> len(Y) <= nbl(IN, E, lnN(IN, E))
+//@   ensures @C03 !br.fault ==> forall k int :: {lnS(IN, E, k)} 0 <= k && k < lnN(IN, E) && !lblank(IN, E, k) && nbl(IN, E, k) < len(Y) && IN[lnS(IN, E, k)] == '@' ==>
+//@             Y[nbl(IN, E, k)].1 == nil && Y[nbl(IN, E, k)].0.S == nil && Y[nbl(IN, E, k)].0.H != nil && isLine(deref(Y[nbl(IN, E, k)].0.H), IN, E, k)
 //@   loop 1
 //@     invariant br.pos <= br.end && !br.fired
 //@     invariant forall t int :: 0 <= t && t < len(Y) ==> Y[t].1 == nil || localErr(Y[t].1)
+//@     invariant @C03 0 <= IT && IT <= lnN(IN, E) && br.pos == lnS(IN, E, IT)
+//@     invariant @C03 IT < lnN(IN, E) ==> lnS(IN, E, IT) <= lnT(IN, E, IT)
+//@     invariant @C03 len(Y) == nbl(IN, E, IT)
+//@     invariant @C03 forall k int :: {nbl(IN, E, k)} IT <= k ==> nbl(IN, E, k) >= len(Y)
+//@     invariant @C03 forall k int :: {nbl(IN, E, k)} IT < k && IT < lnN(IN, E) && !lblank(IN, E, IT) ==> nbl(IN, E, k) > len(Y)
+//@     invariant @C03 forall k int :: {lnS(IN, E, k)} 0 <= k && k < IT && !lblank(IN, E, k) && IN[lnS(IN, E, k)] == '@' ==>
+//@                 Y[nbl(IN, E, k)].1 == nil && Y[nbl(IN, E, k)].0.S == nil && Y[nbl(IN, E, k)].0.H != nil && isLine(deref(Y[nbl(IN, E, k)].0.H), IN, E, k)
 //@     decreases (br.end - br.pos) + (br.fired ? 0 : 1) + (br.fault && br.forever ? 1 : 0)
 
 //@ func Reader
